@@ -1098,6 +1098,19 @@ def opaque(fn, s):
         if fn == 'acos':
             c.axioms.append(z3.And(v >= 0, v <= _const(math.pi)))
             c.axioms.append(z3.Implies(st < 1, v > 0)); c.axioms.append(z3.Implies(st > -1, v < _const(math.pi)))
+            # anchors of arccos at 0 and +-1/2 (90, 60, 120 degrees): exact value, monotonicity, two-sided Lipschitz
+            # bounds in a window (|acos'| = 1/sqrt(1-x^2)); P is the binary64 pi as a rational
+            P = _const(math.pi)
+            for x0, v0, k1, k2 in ((0, P / 2, Fraction(999, 1000), Fraction(102, 100)), (Fraction(1, 2), P / 3, Fraction(104, 100), Fraction(141, 100)),
+                                   (Fraction(-1, 2), 2 * P / 3, Fraction(104, 100), Fraction(141, 100))):
+                x0z = z3.RealVal(str(x0)); k1z = z3.RealVal(str(k1)); k2z = z3.RealVal(str(k2))
+                c.axioms.append(z3.Implies(st == x0z, v == v0))
+                c.axioms.append(z3.Implies(st > x0z, v < v0)); c.axioms.append(z3.Implies(st < x0z, v > v0))
+                win = z3.And(st - x0z <= z3.RealVal('1/5'), x0z - st <= z3.RealVal('1/5'))
+                c.axioms.append(z3.Implies(z3.And(win, st >= x0z), z3.And(v0 - v >= k1z * (st - x0z), v0 - v <= k2z * (st - x0z) + z3.RealVal('1/1000000000000'))))
+                c.axioms.append(z3.Implies(z3.And(win, st <= x0z), z3.And(v - v0 >= k1z * (x0z - st), v - v0 <= k2z * (x0z - st) + z3.RealVal('1/1000000000000'))))
+                c.axioms.append(z3.Implies(st - x0z >= z3.RealVal('1/5'), v0 - v >= z3.RealVal('1/5')))
+                c.axioms.append(z3.Implies(x0z - st >= z3.RealVal('1/5'), v - v0 >= z3.RealVal('1/5')))
         if fn == 'exp':
             c.axioms.append(v > 0)
         c.opaque_args[v.decl().name()] = (fn, s)
